@@ -19,9 +19,15 @@ pub enum Consumer {
     StepBy2Collect,
     Take2RevCollect,
     ZipSelfLen,
+    Position,
+    Rposition,
+    TryFold2ThenCollect,
+    TryRfold2ThenRevCollect,
+    MaxByKey,
+    FindThenLen,
 }
 
-pub const CONSUMERS: [Consumer; 13] = [
+pub const CONSUMERS: [Consumer; 19] = [
     Consumer::Fold,
     Consumer::Rfold,
     Consumer::Last,
@@ -35,6 +41,12 @@ pub const CONSUMERS: [Consumer; 13] = [
     Consumer::StepBy2Collect,
     Consumer::Take2RevCollect,
     Consumer::ZipSelfLen,
+    Consumer::Position,
+    Consumer::Rposition,
+    Consumer::TryFold2ThenCollect,
+    Consumer::TryRfold2ThenRevCollect,
+    Consumer::MaxByKey,
+    Consumer::FindThenLen,
 ];
 
 pub trait DynIter {
@@ -106,6 +118,82 @@ where
             }
             Consumer::StepBy2Collect => it.step_by(2).map(f).collect(),
             Consumer::Take2RevCollect => it.take(2).rev().map(f).collect(),
+            Consumer::Position => {
+                // position of the last-but-one element (by observation), counted from the front
+                let mut it = it;
+                let mut n = 0usize;
+                let p = it.position(|_| {
+                    n += 1;
+                    n == 3
+                });
+                let mut v = vec![Obs::D(p.map_or(-1, |x| x as i128))];
+                v.extend(it.map(f));
+                v
+            }
+            Consumer::Rposition => {
+                // rposition uses len() and next_back()
+                let mut it = it;
+                let mut n = 0usize;
+                let p = it.rposition(|_| {
+                    n += 1;
+                    n == 2
+                });
+                let mut v = vec![Obs::D(p.map_or(-1, |x| x as i128))];
+                v.extend(it.map(f));
+                v
+            }
+            Consumer::TryFold2ThenCollect => {
+                let mut it = it;
+                let mut v = Vec::new();
+                let _ = it.try_fold(0usize, |n, x| {
+                    v.push(f(x));
+                    if n + 1 == 2 {
+                        Err(())
+                    } else {
+                        Ok(n + 1)
+                    }
+                });
+                v.push(Obs::D(-7));
+                v.extend(it.map(f));
+                v
+            }
+            Consumer::TryRfold2ThenRevCollect => {
+                let mut it = it;
+                let mut v = Vec::new();
+                let _ = it.try_rfold(0usize, |n, x| {
+                    v.push(f(x));
+                    if n + 1 == 2 {
+                        Err(())
+                    } else {
+                        Ok(n + 1)
+                    }
+                });
+                v.push(Obs::D(-7));
+                v.extend(it.rev().map(f));
+                v
+            }
+            Consumer::MaxByKey => {
+                // last maximal element by position parity: exercises reduce/fold
+                let mut i = 0usize;
+                it.max_by_key(|_| {
+                    i += 1;
+                    i % 2
+                })
+                .map(f)
+                .into_iter()
+                .collect()
+            }
+            Consumer::FindThenLen => {
+                let mut it = it;
+                let mut n = 0usize;
+                let x = it.find(|_| {
+                    n += 1;
+                    n == 2
+                });
+                let mut v: Vec<Obs> = x.map(f).into_iter().collect();
+                v.push(Obs::D(ExactSizeIterator::len(&it) as i128));
+                v
+            }
             Consumer::ZipSelfLen => {
                 let l = ExactSizeIterator::len(&it);
                 let z = it.zip(0..l);
@@ -220,6 +308,55 @@ fn model_consume(exp: &[Obs], c: Consumer) -> Vec<Obs> {
         }
         Consumer::StepBy2Collect => exp.iter().step_by(2).cloned().collect(),
         Consumer::Take2RevCollect => exp.iter().take(2).rev().cloned().collect(),
+        Consumer::Position => {
+            if exp.len() >= 3 {
+                let mut v = vec![Obs::D(2)];
+                v.extend(exp[3..].iter().cloned());
+                v
+            } else {
+                vec![Obs::D(-1)]
+            }
+        }
+        Consumer::Rposition => {
+            if exp.len() >= 2 {
+                let mut v = vec![Obs::D(exp.len() as i128 - 2)];
+                v.extend(exp[..exp.len() - 2].iter().cloned());
+                v
+            } else {
+                vec![Obs::D(-1)]
+            }
+        }
+        Consumer::TryFold2ThenCollect => {
+            let k = exp.len().min(2);
+            let mut v: Vec<Obs> = exp[..k].to_vec();
+            v.push(Obs::D(-7));
+            v.extend(exp[k..].iter().cloned());
+            v
+        }
+        Consumer::TryRfold2ThenRevCollect => {
+            let k = exp.len().min(2);
+            let mut v: Vec<Obs> = exp.iter().rev().take(k).cloned().collect();
+            v.push(Obs::D(-7));
+            v.extend(exp[..exp.len() - k].iter().rev().cloned());
+            v
+        }
+        Consumer::MaxByKey => {
+            // keys 1,0,1,0,…: max_by_key returns the LAST element with the maximal key (key 1 = odd positions counted from 1)
+            let mut best: Option<&Obs> = None;
+            for (i, x) in exp.iter().enumerate() {
+                if (i + 1) % 2 == 1 {
+                    best = Some(x);
+                }
+            }
+            best.cloned().into_iter().collect()
+        }
+        Consumer::FindThenLen => {
+            if exp.len() >= 2 {
+                vec![exp[1].clone(), Obs::D(exp.len() as i128 - 2)]
+            } else {
+                vec![Obs::D(0)]
+            }
+        }
         Consumer::ZipSelfLen => {
             let mut v = vec![Obs::D(exp.len() as i128)];
             for (i, x) in exp.iter().enumerate().rev() {
